@@ -93,9 +93,63 @@ func genScript(r *gen.Rand, use bool, novr int) string {
 	}
 }
 
+// customLists: Config.RequestMethods that remove, reorder and interleave standard and non-standard methods
+// (a standard method away from its default index, a list without GET, a non-standard method in front)
+var customLists = [][]string{
+	{"GET", "POST", "PURGE"}, {"POST", "GET"}, {"BREW", "GET", "HEAD", "POST"}, {"GET", "HEAD", "PUT", "DELETE"},
+	{"POST", "PUT", "PURGE"}, {"PUT", "BREW", "POST", "GET"}, {"GET", "HEAD", "POST", "PUT", "DELETE", "CONNECT", "OPTIONS", "TRACE", "PATCH", "PURGE"},
+	{"HEAD", "GET"}, {"PATCH", "PURGE", "GET", "DELETE"},
+}
+
+var absentPool = []string{"GET", "HEAD", "POST", "PUT", "DELETE", "PATCH", "OPTIONS", "FOO", "PURGE"}
+
+// customise rewrites the method names of a table generated over the default methods into the
+// configured list (one table in five).
+func customise(r *gen.Rand, t *table) {
+	if !r.Chance(1, 5) {
+		return
+	}
+	l := gen.Pick(r, customLists)
+	t.cfg.methods = l
+	for i := range t.regs {
+		g := &t.regs[i]
+		if i > 0 && g.kind == t.regs[i-1].kind && g.path == t.regs[i-1].path && len(g.methods) > 0 &&
+			strings.Join(g.chain, ".") == strings.Join(t.regs[i-1].chain, ".") && r.Chance(3, 4) {
+			// keep duplicates duplicates
+			g.methods = t.regs[i-1].methods
+		} else if len(g.methods) > 0 {
+			seen := map[string]bool{}
+			var ms []string
+			for range g.methods {
+				m := gen.Pick(r, l)
+				if !seen[m] {
+					seen[m] = true
+					ms = append(ms, m)
+				}
+			}
+			g.methods = ms
+		}
+		for k := range g.hs {
+			if g.hs[k].script[0] == 'm' {
+				if r.Chance(1, 8) {
+					g.hs[k].script = "m" + gen.Pick(r, absentPool)
+				} else {
+					g.hs[k].script = "m" + gen.Pick(r, l)
+				}
+			}
+		}
+	}
+}
+
 func genTable(r *gen.Rand) table {
+	t := genTable0(r)
+	customise(r.Fork(424242), &t)
+	return t
+}
+
+func genTable0(r *gen.Rand) table {
 	var t table
-	t.cfg = config{r.Bool(), r.Bool(), r.Bool(), r.Bool()}
+	t.cfg = config{cs: r.Bool(), strict: r.Bool(), unesc: r.Bool(), custom: r.Bool()}
 	// 2-3 stems per table so that patterns collide on prefixes
 	var pool []string
 	for i := 2 + r.Intn(2); i > 0; i-- {
@@ -346,6 +400,18 @@ func genReq(r *gen.Rand, t table) (string, string) {
 		}
 	}
 	method := gen.Pick(r, reqMethods)
+	if t.cfg.methods != nil {
+		rm := r.Fork(515151)
+		method = gen.Pick(rm, t.cfg.methods)
+		switch {
+		case rm.Chance(1, 8):
+			// mostly a standard method the list does not hold: 501
+			return gen.Pick(rm, absentPool), path
+		case from != nil && len(from.methods) > 0 && rm.Chance(1, 2):
+			method = gen.Pick(rm, from.methods)
+		}
+		return method, path
+	}
 	if from != nil && len(from.methods) > 0 && r.Chance(3, 4) {
 		method = gen.Pick(r, from.methods)
 	} else if r.Chance(1, 3) {
@@ -416,7 +482,7 @@ func exhaustive(w *gen.Writer, seed uint64) {
 				regs = append(regs, g)
 			}
 			for cf := 0; cf < 8; cf++ {
-				cfg := config{cf&1 != 0, cf&2 != 0, cf&4 != 0, tno%4 == 3}
+				cfg := config{cs: cf&1 != 0, strict: cf&2 != 0, unesc: cf&4 != 0, custom: tno%4 == 3}
 				b, ok := build(cfg, regs, nil)
 				if !ok {
 					w.Count("table-build-panic")
